@@ -80,7 +80,7 @@ def run_gather(sc, seed):
     return outcome
 
 
-def liveness(kinds, maxc, timeout=1.5):
+def liveness(kinds, maxc, timeout=1.5, reconfigure=False):
     """An async-thread node that only returns once a heartbeat coroutine has made progress while it runs.
     kinds: resources of the sibling nodes.  Returns (ok, detail)."""
     ticks = [0]
@@ -118,6 +118,9 @@ def liveness(kinds, maxc, timeout=1.5):
         return tuple(outs)
     describe.__qualname__ = describe.__name__ = "live"
     d = threadsafe_make_dag(describe, maxc, True)
+    if reconfigure:
+        # a reconfiguration that only restates priorities: every node keeps its resource
+        d.config_from_dict({"nodes": {"a_node": {"priority": 1}, "quick": {"priority": 2, "is_sequential": False}}})
 
     async def heartbeat():
         while not done_a.is_set():
